@@ -78,8 +78,8 @@ func OrderHistories(tier string) []OrderHistory {
 		// one AddAllowedBidders call carrying a list whose LAST entry is refused (cap above the offer), made by a
 		// module that handles the error and keeps going: which entries were stored must not depend on the run
 		OrderHistory{"allow-list-call-with-a-refused-entry", cfg, []Op{fixed,
-			{Kind: "add_allowed", AID: 0, Bidder: "bid1", Max: "10", More: "bid2:10,bid3:10,out1:10,donor:11", KeepOnError: true},
-			fb(0, "bid1", "bcoin", "3"), fb(0, "bid2", "acoin", "2"), fb(0, "bid3", "bcoin", "1"), fb(0, "out1", "bcoin", "1"), blk(2)}},
+			{Kind: "add_allowed", AID: 0, Bidder: "bid1", Max: "10", More: "bid2:10,bid3:10,out1:11", KeepOnError: true},
+			fb(0, "bid1", "bcoin", "3"), fb(0, "bid2", "acoin", "2"), fb(0, "bid3", "bcoin", "1"), blk(2)}},
 	)
 	if tier == "thorough" {
 		hs = append(hs,
